@@ -21,6 +21,7 @@ var tiers = map[string][3]int{
 	"C04": {600, 8000, 0},
 	"C01": {300, 8000, 300},
 	"C19": {1500, 30000, 0},
+	"C13": {1500, 30000, 0},
 }
 
 func tierOf(id string, thorough bool) tierCfg {
@@ -76,5 +77,9 @@ func init() {
 	props["C19"] = propCfg{
 		Rule:        "1-3 files built from declaration templates with unique names: top-level locals, globals, global and local functions, local and global tables with members defined as function t.f / function t:m / t.f = function / t.v = literal, ---@class blocks followed by their variable, table constructors with fields; function bodies contain nested locals. Oracle: the generator knows every declaration and the byte offset of its declaring identifier; documentSymbol (flattened) must hold, for each declaration, an entry whose name contains the declared name and whose well-formed in-file range contains the declaring identifier; workspace/symbol with the exact name of every global, global function and member of a global table must return an entry in the declaring file located at the declaring identifier. Non-trivial: a workspace with >= 2 table members; distinct by workspace text.",
 		Assumptions: append([]string{"don't-care: extra entries, detail, kind, name decoration, locals inside functions, fields written inside a table constructor"}, commonAssume...),
+	}
+	props["C13"] = propCfg{
+		Rule:        "a file of 1-7 declarations (local / global variable with an integer or string literal, global / local function, function t.f, function t:m, t.v = literal) each with no comment, a trailing comment, a leading block of 1-3 comment lines directly above, both, or a block separated by a blank line; comment text over ASCII, 2-byte (accented Latin, Cyrillic, Greek), CJK, astral and mixed alphabets; hover is asked at a use of every name. Oracle: the label contains the identifier, starts with `local` iff the declaration is local, contains the literal as written (integers, strings) and the parameter names in order; the documentation part is exactly the expected comment lines (trailing comment first, else the leading block, none when separated by a blank line), byte for byte. Non-trivial: a case with a commented declaration whose comment has a non-ASCII character; distinct by file text.",
+		Assumptions: append([]string{"don't-care: long-bracket comments as documentation, annotation comments, comment text starting with dashes/stars/space runs, float and boolean literals in the label, GBK-encoded sources"}, commonAssume...),
 	}
 }
